@@ -9,6 +9,9 @@ CFG = {
             "odd events; each x 4 (deckpam, decckm) combinations. paste: start/end x all 512 mode combinations. mouse: every MouseButton "
             "constant x press/release/motion x positions from {0,1,94,95,222,223,1000}^2 (sampled quick, all 49 thorough) x 128 "
             "combinations of (1000,1002,1003,1006,1007,1049,DECCKM), odd buttons/event types/modifiers, all 512 modes. "
+            "ckey/cmouse/cpaste: the modes are established by child output scripts (DECSET/DECRST of 1,1000,1002,1003,1006,1007,1049,2004 and "
+            "distractors, DECKPAM/DECKPNM, RIS; systematic singles/pairs/after-RIS/across-1049 + random scripts) fed through the real "
+            "parser and Model.update, then 7 keys, 6 mouse events and both paste boundaries are forwarded; expected modes from Spec.specModes. "
             "Non-trivial = something is written towards the child; distinct by op line.",
     "trusted_base": ["unicode.IsLower etc. are parameters of the model (structure Uni)",
                      "bytes -> sequences is the real ansi parser (C02); a lone ESC is resolved as the escape time-out does (C08)",
@@ -16,7 +19,7 @@ CFG = {
     "level_text": "Forwarded keys/paste/mouse: Props/C13 theorems proved over the model of widgets/term/key.go, mouse.go and the "
                   "forwarding arms of Update, tied to the source by Gen/TermKeys.lean, Gen/Keys.lean, Gen/Mouse.lean and by correspondence.",
     "level_note": "Proved: key_roundtrip (table part by kernel decide over the regenerated tables, all four key-mode combinations), "
-                  "cursor_mode_selects, mouse_roundtrip (all buttons of the API, all positions), mouse_gated, paste_gated. "
+                  "cursor_mode_selects, child_modes_conform (decset/decrst/DECKPAM/DECKPNM/RIS tables vs the standard meaning), mouse_roundtrip (all buttons of the API, all positions), mouse_gated, paste_gated. "
                   "Validated by correspondence only: the hand-transcribed bodies of encodeXterm / handleMouse / Update. "
                   "Modelled not verified: parser, unicode tables, pty write.",
     "assumptions": ["Key.Text and the strings written are valid UTF-8"],
